@@ -13,22 +13,23 @@ variable {E : Env} {c : Ctx} {rec : Tag → St → St}
 abbrev cov : SK → Bool := CstPrint.covered
 
 /-- what the infix loops need on entry: the last child is a node and starts at the marker -/
-def Pre (t : Tag) (s : St) : Prop :=
+def Pre (E : Env) (t : Tag) (s : St) : Prop :=
   match t with
   | .prattLoop | .prattLoopNoLb => ∃ p x, topCh s = p ++ [x] ∧ s.rb = p.length ∧ IsNode x
+  | .typeTupleOrParen => peek E s = some Kind.ParenBegin
   | _ => True
 
 def trivPre : Tag → Bool
-  | .prattLoop | .prattLoopNoLb => false
+  | .prattLoop | .prattLoopNoLb | .typeTupleOrParen => false
   | _ => true
 
-theorem trivPre_pre (t : Tag) (h : trivPre t = true) (s : St) : Pre t s := by
+theorem trivPre_pre (t : Tag) (h : trivPre t = true) (s : St) : Pre E t s := by
   cases t <;> first | trivial | (simp [trivPre] at h)
 
-abbrev NOK (cmd : Cmd) (s : St) : Prop := NodesOK E c cov Pre rec (R E c) cmd s
+abbrev NOK (cmd : Cmd) (s : St) : Prop := NodesOK E c cov (Pre E) rec (R E c) cmd s
 
 theorem nok_triv (cmd : Cmd) (s : St) (h : noCov cov trivPre cmd = true) : NOK (E := E) (c := c) (rec := rec) cmd s :=
-  nodesOK_of_noCov cov Pre trivPre trivPre_pre rec (R E c) cmd s h
+  nodesOK_of_noCov cov (Pre E) trivPre trivPre_pre rec (R E c) cmd s h
 
 theorem nok_ite (cnd : Cond) (t e : Cmd) (s : St) :
     NOK (E := E) (c := c) (rec := rec) (.ite cnd t e) s =
@@ -422,13 +423,13 @@ theorem nok_nodeAtB_eq (k : SK) (a : Cmd) (s : St) :
           ShapeOK (c := c) cov k (topCh (exec E rec a (prim E s (.startNodeAt s.rb k.toNat)))))) := by
   simp only [NodesOK]
 
-theorem nok_call (t : Tag) (s : St) : NOK (E := E) (c := c) (rec := rec) (.call t) s = Pre t s := by simp only [NodesOK]
+theorem nok_call (t : Tag) (s : St) : NOK (E := E) (c := c) (rec := rec) (.call t) s = Pre E t s := by simp only [NodesOK]
 theorem nok_callA (t : Tag) (a : AExpr) (s : St) :
-    NOK (E := E) (c := c) (rec := rec) (.callA t a) s = Pre t { s with ra := evalA E s a } := by simp only [NodesOK]
+    NOK (E := E) (c := c) (rec := rec) (.callA t a) s = Pre E t { s with ra := evalA E s a } := by simp only [NodesOK]
 
 theorem nok_pratt (callee : Tag) (hcallee : ∀ s s', Rs E c callee s s' → App P1 s s') (htp : trivPre callee = true) (cont : Cmd) (a : AExpr)
-    (hcont : ∀ s, Pre .prattLoop s → NOK (E := E) (c := c) (rec := rec) cont s)
-    (s : St) (hW : W E c s) (hpre : Pre .prattLoop s) :
+    (hcont : ∀ s, Pre E .prattLoop s → NOK (E := E) (c := c) (rec := rec) cont s)
+    (s : St) (hW : W E c s) (hpre : Pre E .prattLoop s) :
     NOK (E := E) (c := c) (rec := rec) (.ite .isInfix (.ite (.neg .infixBelowA)
       (.seq (.nodeAtB .BinaryExpr (.seq .bump (.callA callee a))) (.seq .setBMarkerPred cont)) .skip) .skip) s := by
   obtain ⟨p, x, hp, hrb, hx⟩ := hpre
@@ -451,19 +452,19 @@ theorem nok_pratt (callee : Tag) (hcallee : ∀ s s', Rs E c callee s s' → App
     · trivial
   · trivial
 
-theorem nok_prattLoop (s : St) (hW : W E c s) (hpre : Pre .prattLoop s) : NOK (E := E) (c := c) (rec := rec) (body .prattLoop) s :=
+theorem nok_prattLoop (s : St) (hW : W E c s) (hpre : Pre E .prattLoop s) : NOK (E := E) (c := c) (rec := rec) (body .prattLoop) s :=
   nok_pratt .exprPrec (fun _ _ h => h) rfl (.ite (.neg stmtBreak) (.call .prattLoop) .skip) .prevPrecPlus1
     (fun s' hp => by rw [nok_ite]; split; · rw [nok_call]; exact hp
                      · trivial) s hW hpre
 
-theorem nok_prattLoopNoLb (s : St) (hW : W E c s) (hpre : Pre .prattLoopNoLb s) :
+theorem nok_prattLoopNoLb (s : St) (hW : W E c s) (hpre : Pre E .prattLoopNoLb s) :
     NOK (E := E) (c := c) (rec := rec) (body .prattLoopNoLb) s :=
   nok_pratt .exprPrecNoLb (fun _ _ h => h) rfl (.call .prattLoopNoLb) .prevPrecPlus1
     (fun s' hp => by rw [nok_call]; exact hp) s hW hpre
 
 theorem pre_after (f : Tag) (hf : ∀ s s', Rs E c f s s' → App P1 s s') (s : St)
     (h : Em E c rec (R E c) (.call f) (exec E rec .setBMarker s)) :
-    Pre .prattLoop (exec E rec (.call f) (exec E rec .setBMarker s)) := by
+    Pre E .prattLoop (exec E rec (.call f) (exec E rec .setBMarker s)) := by
   obtain ⟨w, e, k, a, rfl⟩ := hf _ _ (And.left h)
   exact ⟨topCh s, .node k a, e, marker_eq s, ⟨k, a, rfl⟩⟩
 
